@@ -9,11 +9,10 @@ Specification: `TexSoupProofs/ArgsSpec.lean` (`specStep` on a bare `List Expr`).
 Abstraction `abs st = st.lst`; invariant `Inv` (only group/command objects in the list; every
 list item has its own textual twin in `.all`, counted with multiplicity).
 
-Three things the proofs forced into the open (all replayed on the implementation):
-* `pop` returns the first *textual twin* kept in `.all`, not the list item itself
-  (`step_refines` relates returned items by text; `pop_returns_textual_twin` is the witness;
-  `step_refines_plain` shows that the pool of the property – groups made from strings –
-  cannot tell the difference);
+Things the proofs forced into the open (all replayed on the implementation):
+* before its repair `pop` returned the first *textual twin* kept in `.all`, not the list item
+  itself (`Legacy.pop_returns_textual_twin`); the repaired `pop` returns the list item, so
+  every output of every operation is now exactly the list's (`step_refines`);
 * `remove(x)` of something that is in `.all` but not in the list (a blank string, mainly)
   raises `ValueError` like a list does, but has already deleted it from `.all`
   (`failed_ops_keep_state`);
@@ -25,52 +24,48 @@ namespace C18
 open ArgsSpec ArgsLemmas ArgsLemmas.Examples
 
 /-- **One step refines the list.** For every state satisfying the invariant and *every*
-operation with *every* integer index/bound: the class returns what the list returns
-(returned items compared by text, see the header), the new list is the list's new value
-(`abs` commutes), and the invariant is preserved. A returned slice is the sliced list and
-itself a well-formed `TexArgs`. -/
+operation with *every* integer index/bound: the class returns exactly what the list returns
+(a returned item is the list's own item – the same object, not merely an equal text), the
+new list is the list's new value (`abs` commutes), and the invariant is preserved. A
+returned slice is the sliced list and itself a well-formed `TexArgs`. -/
 theorem step_refines (st : ArgsSt) (op : ArgsOp) (h : Inv st) :
     abs (Args.step st op).1 = (specStep (abs st) op).1 ∧
     Inv (Args.step st op).1 ∧
-    OutRel SameText (Args.step st op).2 (specStep (abs st) op).2 := by
+    OutRel SameObj (Args.step st op).2 (specStep (abs st) op).2 := by
   have := step_core st op h
   exact ⟨this.1, this.2.1, outRel_mono (fun _ _ hr => hr.1) this.2.2⟩
 example : Inv ArgsSt.empty := inv_empty
 example : (Args.step stAB (.insert (-7) (.str sY))).1.lst = [gY, gA, gB] ∧
     (specStep stAB.lst (.insert (-7) (.str sY))).1 = [gY, gA, gB] := ⟨rfl, rfl⟩
 
-/-- **Except for `pop`, returned items are the list's own items** (the very object, not
-only an equal text). -/
-theorem step_output_exact (st : ArgsSt) (op : ArgsOp) (h : Inv st) (hop : isPopOp op = false) :
-    OutRel SameObj (Args.step st op).2 (specStep (abs st) op).2 := by
-  have := (step_core st op h).2.2
-  refine outRel_mono (fun it e hr => ?_) this
-  rcases hr with ⟨_, _, h1 | ⟨h2, _⟩⟩
-  · exact h1
-  · rw [hop] at h2; cases h2
-example : (Args.step stAB (.getItem (-1))).2 = .item (.grp gB) := rfl
+/-- **Returned items are the list's own items, for every operation** (`pop` included since
+its repair): the output component of `step_refines` on its own. -/
+theorem step_output_exact (st : ArgsSt) (op : ArgsOp) (h : Inv st) :
+    OutRel SameObj (Args.step st op).2 (specStep (abs st) op).2 :=
+  (step_refines st op h).2.2
+example : (Args.step stAB (.getItem (-1))).2 = .item (.grp gB) ∧
+    (Args.step stAB (.pop 0)).2 = .item (.grp gA) := ⟨rfl, rfl⟩
 
-/-- **Deviation of `pop` (found by the proof, confirmed on the implementation).** With two
-textually equal groups that are different objects (here: different source positions 3 and
-7), `pop(1)` hands back the one at position 3 although the list item at index 1 is the one
-at position 7 – `list.pop` returns the latter. The state is reachable (`TexArgs([g3, g7])`)
-and satisfies the invariant. Harmless for text, visible through `.position`/identity. -/
-theorem pop_returns_textual_twin :
+/-- **The repaired `pop` on the witness of the former deviation**: with two textually equal
+groups that are different objects (source positions 3 and 7), `pop(1)` returns the item at
+index 1 (position 7), as `list.pop` does. (`.all` gives up its *first* twin, the object at
+position 3 – the multiset of texts, which is all the invariant needs, is the same.) -/
+theorem pop_returns_list_item_on_witness :
     let g3 : Expr := .group .brace [.text [97] (-1)] 3
     let g7 : Expr := .group .brace [.text [97] (-1)] 7
     let st := (Args.construct [.grp g3, .grp g7]).1
     st = ⟨[g3, g7], [.grp g3, .grp g7]⟩ ∧
-    Args.step st (.pop 1) = (⟨[g3], [.grp g7]⟩, .item (.grp g3)) ∧
+    Args.step st (.pop 1) = (⟨[g3], [.grp g7]⟩, .item (.grp g7)) ∧
     specStep st.lst (.pop 1) = ([g3], .item g7) :=
   ⟨rfl, rfl, rfl⟩
 
 /-- **Histories.** From any state satisfying the invariant (in particular the empty
-`TexArgs()`), every finite sequence of operations yields pointwise related outputs, the same
-final list, and a final state satisfying the invariant. -/
+`TexArgs()`), every finite sequence of operations yields pointwise identical outputs, the
+same final list, and a final state satisfying the invariant. -/
 theorem run_refines (st : ArgsSt) (ops : List ArgsOp) (h : Inv st) :
     abs (Args.run st ops).1 = (specRun (abs st) ops).1 ∧
     Inv (Args.run st ops).1 ∧
-    OutsRel SameText (Args.run st ops).2 (specRun (abs st) ops).2 := by
+    OutsRel SameObj (Args.run st ops).2 (specRun (abs st) ops).2 := by
   induction ops generalizing st with
   | nil => exact ⟨rfl, h, trivial⟩
   | cons op ops ih =>
@@ -83,18 +78,16 @@ theorem run_refines (st : ArgsSt) (ops : List ArgsOp) (h : Inv st) :
 example : (Args.run .empty [.append (.str sA), .insert 5 (.str sB), .remove (.str sA), .pop (-1)]).2
     = [.none, .none, .none, .item (.grp gB)] := rfl
 
-/-- **On the pool of the property the refinement is exact.** If everything stored is a
-group made from a string (`TexGroup.parse`, position `-1`) or a blank string, and the
-operation brings in only such values, then *every* output – `pop` included – is exactly the
-list's output, and the state stays in that pool. -/
+/-- **The pool of the property is closed.** If everything stored is a group made from a
+string (`TexGroup.parse`, position `-1`) or a blank string, and the operation brings in only
+such values, then besides `step_refines` the state stays in that pool. -/
 theorem step_refines_plain (st : ArgsSt) (op : ArgsOp) (h : Inv st) (hp : PlainSt st)
     (hop : PlainOp op) :
     abs (Args.step st op).1 = (specStep (abs st) op).1 ∧
     Inv (Args.step st op).1 ∧ PlainSt (Args.step st op).1 ∧
     OutRel SameObj (Args.step st op).2 (specStep (abs st) op).2 := by
-  have := step_core st op h
-  exact ⟨this.1, this.2.1, plain_step st op h hp hop,
-    outRel_mono (fun _ _ hr => item_exact_of_plain hp hr) this.2.2⟩
+  have := step_refines st op h
+  exact ⟨this.1, this.2.1, plain_step st op h hp hop, this.2.2⟩
 example : PlainSt ArgsSt.empty := ⟨by simp [ArgsSt.empty], by simp [ArgsSt.empty]⟩
 example : PlainOp (.insert (-1) (.str sY)) ∧ PlainOp (.append (.grp gA)) :=
   ⟨trivial, ⟨.brace, [97], rfl⟩⟩
@@ -155,7 +148,7 @@ theorem failed_ops_keep_state (st : ArgsSt) (op : ArgsOp) (h : Inv st)
     · rw [hr] at herr; simp [isError] at herr
   | pop i =>
     simp only [Args.step] at herr ⊢
-    rcases pop_char st i h with ⟨_, hp⟩ | ⟨k, e, j, r, _, _, _, _, hp, _⟩
+    rcases pop_char st i h with ⟨_, hp⟩ | ⟨k, e, j, _, _, _, hp, _⟩
     · rw [hp]; exact ⟨rfl, Or.inl rfl⟩
     · rw [hp] at herr; simp [isError] at herr
   | reverse => simp [Args.step, Args.reverse, isError] at herr
@@ -280,6 +273,51 @@ theorem insert_breaks_list_semantics :
   refine ⟨rfl, ⟨by simp [gA, gB, isArgObj], fun t => Nat.le_refl _⟩, rfl, rfl, ?_⟩
   intro h
   exact absurd (h.twins sY) (by decide)
+
+/-- **Negative result (before the repair of `pop`).** The old `pop` ended in
+`return self.all.pop(j)`: with two textually equal groups that are different objects (source
+positions 3 and 7), `pop(1)` handed back the one at position 3 although the list item at
+index 1 is the one at position 7, which `list.pop` returns. The state is reachable
+(`TexArgs([g3, g7])`). Harmless for text, visible through `.position`/identity. -/
+theorem pop_returns_textual_twin :
+    let g3 : Expr := .group .brace [.text [97] (-1)] 3
+    let g7 : Expr := .group .brace [.text [97] (-1)] 7
+    let st := (Args.construct [.grp g3, .grp g7]).1
+    st = ⟨[g3, g7], [.grp g3, .grp g7]⟩ ∧ Inv st ∧
+    Args.Legacy.pop st 1 = (⟨[g3], [.grp g7]⟩, .item (.grp g3)) ∧
+    specStep st.lst (.pop 1) = ([g3], .item g7) := by
+  refine ⟨rfl, ?_, rfl, rfl⟩
+  show Inv ⟨[.group .brace [.text [97] (-1)] 3, .group .brace [.text [97] (-1)] 7],
+    [.grp (.group .brace [.text [97] (-1)] 3), .grp (.group .brace [.text [97] (-1)] 7)]⟩
+  exact ⟨by simp [isArgObj], fun t => Nat.le_refl _⟩
+
+/-- **The old `pop` was wrong in the returned object only**: same new state as the repaired
+`pop`, same exception behaviour, and the object it returned is an entry of `.all` printing
+like the list item. -/
+theorem pop_differs_only_in_returned_object (st : ArgsSt) (i : Int) (h : Inv st) :
+    (Args.Legacy.pop st i).1 = (Args.pop st i).1 ∧
+    ((Args.pop st i).2 = .indexError ∧ (Args.Legacy.pop st i).2 = .indexError ∨
+     ∃ e r, (Args.pop st i).2 = .item (.grp e) ∧ (Args.Legacy.pop st i).2 = .item r ∧
+       r ∈ st.all ∧ e ∈ st.lst ∧ r.txt = ser e) :=
+  legacy_pop_char st i h
+example : Args.Legacy.pop stAB 5 = (stAB, .indexError) ∧
+    Args.Legacy.pop stAB 0 = Args.pop stAB 0 := ⟨rfl, rfl⟩
+
+/-- **On the pool of the property the old `pop` could not be told from a list's**: there a
+textual twin is the same value, so old and repaired `pop` agree completely. (This is why a
+breadth-first search over groups made from strings does not see the defect.) -/
+theorem pop_agrees_on_plain_pool (st : ArgsSt) (i : Int) (h : Inv st) (hp : PlainSt st) :
+    Args.Legacy.pop st i = Args.pop st i := by
+  rcases legacy_pop_char st i h with ⟨h1, ⟨h2, h3⟩ | ⟨e, r, h2, h3, hr, he, ht⟩⟩
+  · exact Prod.ext h1 (h3.trans h2.symm)
+  · exact Prod.ext h1 (by rw [h2, h3, twin_exact_of_plain hp hr he ht])
+example : PlainSt stAB :=
+  ⟨by intro e he; simp [stAB] at he; rcases he with rfl | rfl <;> exact ⟨_, _, rfl⟩,
+   by intro it hi; simp [stAB] at hi
+      rcases hi with rfl | rfl | rfl
+      · exact ⟨_, _, rfl⟩
+      · exact ⟨_, _, rfl⟩
+      · show isBlank [32] = true; decide⟩
 
 /-- The repaired `insert` on the same input: no exception, list as `list.insert`, `.all` in step. -/
 theorem insert_repaired_on_witness :
